@@ -417,6 +417,7 @@ fn mode_gated(args: &[&str]) -> i32 {
     };
     ctl::TIMEOUT_US.store(tmo * 1000, SeqCst);
     ctl::DELAY_US.store(delay, SeqCst);
+    sys::alarm(3 * tmo / 1000 + 5);
     out::s("mode gated\n");
     out::line("main_tid", &[ctl::MAIN_TID.load(SeqCst) as u64]);
     snapshot("base", Some("maps0"));
@@ -464,6 +465,9 @@ fn mode_free(args: &[&str]) -> i32 {
         return usage();
     };
     ctl::TIMEOUT_US.store(tmo * 1000, SeqCst);
+    // a handle operation that never returns ends the probe with SIGALRM
+    sys::alarm(3 * tmo / 1000 + 5);
+    out::UNBUFFERED.store(true, SeqCst);
     out::s("mode free\n");
     out::line("main_tid", &[ctl::MAIN_TID.load(SeqCst) as u64]);
     snapshot("base", Some("maps0"));
@@ -526,6 +530,9 @@ fn mode_hist(args: &[&str]) -> i32 {
     };
     let tmo_us = tmo * 1000;
     ctl::TIMEOUT_US.store(tmo_us, SeqCst);
+    // a handle operation that never returns ends the probe with SIGALRM
+    sys::alarm(2 * tmo / 1000 + 2 + reps * n as u64 / 200);
+    out::UNBUFFERED.store(log, SeqCst);
     out::s("mode hist\n");
     out::line("main_tid", &[ctl::MAIN_TID.load(SeqCst) as u64]);
     snapshot("base", if log { Some("maps0") } else { None });
